@@ -331,6 +331,44 @@ def step (w : RWorld) (toks : List String) : Option (RWorld × String) :=
       | some c => do let n ← c.availableMemory ch; pure (s, toString n)
     | _, _ => (w, "bad-op")
   | ["note", _] => some (w, "ok")
+  | ["sendn", who, ch, n, tag] => some <| match parseWho who, ch.toNat?, n.toNat?, tag.toNat? with
+    | some tgt, some ch, some n, some tag =>
+      let msg (i : Nat) : Bytes := [UInt8.ofNat tag, UInt8.ofNat (i % 256), UInt8.ofNat (i / 256 % 256), UInt8.ofNat (i / 65536 % 256), UInt8.ofNat (i / 16777216 % 256)]
+      let rec go (fuel : Nat) (i : Nat) (w : RWorld) : RWorld × String :=
+        match fuel with
+        | 0 => (w, "ok")
+        | fuel + 1 =>
+          let (w', out) := match tgt with
+            | .client h => withClient w h fun c => do let c' ← c.sendMessage ch (msg i); pure (c', "ok")
+            | .sconn id => withServer w fun s => do let s' ← s.sendMessage id ch (msg i); pure (s', "ok")
+            | .srv => (w, "bad-op")
+          if out == "ok" then go fuel (i + 1) w' else (w', out)
+      go n 0 w
+    | _, _, _, _ => (w, "bad-op")
+  | ["recvn", who, ch, mx] => some <| match parseWho who, ch.toNat?, mx.toNat? with
+    | some tgt, some ch, some mx =>
+      let rec goR (fuel : Nat) (n sum : Nat) (w : RWorld) : RWorld × String :=
+        match fuel with
+        | 0 => (w, s!"msgs {n} {sum}")
+        | fuel + 1 =>
+          let r : Option (RWorld × Option Bytes) := match tgt with
+            | .client h => match SMap.find? w.clients h with
+              | none => none
+              | some c => match c.receiveMessage ch with
+                | .ok (c', m) => some ({ w with clients := SMap.insert w.clients h c' }, m)
+                | _ => none
+            | .sconn id => match w.server with
+              | none => none
+              | some s => match s.receiveMessage id ch with
+                | .ok (s', m) => some ({ w with server := some s' }, m)
+                | _ => none
+            | .srv => none
+          match r with
+          | none => ({ w with dead := true }, "panic")
+          | some (w', none) => (w', s!"msgs {n} {sum}")
+          | some (w', some m) => goR fuel (n + 1) (m.foldl (fun acc b => (acc * 31 + b.toNat) % 1000000007) sum) w'
+      goR mx 0 0 w
+    | _, _, _ => (w, "bad-op")
   | "enc" :: term => some <| match parseTerm term with
     | none => (w, "bad-op")
     | some p => match p.toBytes C.SER_BUFFER with
